@@ -68,6 +68,15 @@ pub broadcast axiom fn axiom_guard_resolved<'a, T: Component>(g: RemoveOnDrop<'a
     requires #[trigger] has_resolved(g),
     ensures has_resolved(g.0);
 
+// state in which the unwinding guard of not_present_insert may run: the value for `id` is already stored, its mask bit is
+// not yet set, every other index is in step (C19; relies on the source's stated assumption that a panicking
+// `BitSet::add` leaves the bit set unchanged)
+pub open spec fn guard_pre<T: Component>(m: &MaskedStorage<T>, id: Index) -> bool {
+    &&& m.inner.us_wf()
+    &&& m.inner.has(id) && !m.mask@.contains(id)
+    &&& forall|i: Index| #![trigger m.mask@.contains(i)] #![trigger m.inner.has(i)] i != id ==> (m.mask@.contains(i) <==> m.inner.has(i))
+}
+
 // element-wise form of "n is o with id mapped to v" (used where the final value is only known through a returned borrow)
 pub open spec fn map_inserted<T: Component>(o: &MaskedStorage<T>, n: &MaskedStorage<T>, id: Index, v: T) -> bool {
     &&& n.mask@ =~= o.mask@.insert(id)
